@@ -3,13 +3,15 @@
 Inputs: /tmp/seed-Cxx/OUT/{A,B}.{patch.diff,demo.rs,meta.txt}, /tmp/seedverify*.log, /tmp/seedcheck*.log"""
 import json, os, re, shutil, sys, glob
 ROOT='/verif/seeded'
+ROUND=os.environ.get('SEEDROUND','')
+SRCROOT=os.environ.get('SEEDROOT','/tmp/seed')
 verify={}
-for f in glob.glob('/tmp/seedverify*.log'):
+for f in glob.glob(os.environ.get('VERIFYGLOB','/tmp/seedverify*.log')):
     for l in open(f):
         m=re.match(r'(C\d+) ([AB]) suite=(\S+) demo_with=(\S+) demo_without=(\S+)',l)
         if m: verify[(m.group(1),m.group(2))]=m.groups()[2:]
 checks={}
-for f in sorted(glob.glob('/tmp/seedcheck*.log')):
+for f in sorted(glob.glob(os.environ.get('CHECKGLOB','/tmp/seedcheck*.log'))):
     for l in open(f):
         m=re.match(r'(C\d+) ([AB])\.patch\.diff exit=(\d+) ?(.*)',l)
         if m: checks.setdefault((m.group(1),m.group(2)),[]).append((os.path.basename(f),int(m.group(3)),m.group(4).strip()))
@@ -17,8 +19,8 @@ index=[]
 for (cid,x),v in sorted(verify.items()):
     if v!=('ok','fails','passes'):
         print('skip (not confirmed):',cid,x,v); continue
-    src=f'/tmp/seed-{cid}/OUT'
-    d=f'{ROOT}/{cid}-{x}'
+    src=f'{SRCROOT}-{cid}/OUT'
+    d=f'{ROOT}/{cid}-{x}{ROUND}'
     os.makedirs(d,exist_ok=True)
     shutil.copy(f'{src}/{x}.patch.diff',f'{d}/patch.diff')
     shutil.copy(f'{src}/{x}.demo.rs',f'{d}/demo.rs')
@@ -31,14 +33,14 @@ for (cid,x),v in sorted(verify.items()):
       'origin':'written by an independent sub-agent that saw only the property text and its own scratch worktree',
       'needs_to_manifest_and_author_notes':meta_txt,
       'confirmed':{'existing_suite_with_change':'291 passed','demo_with_change':'fails','demo_without_change':'passes',
-                   'how':f'tools/seedverify.sh {cid} {x} in the scratch worktree /tmp/seed-{cid} (removed afterwards)'},
-      'check_runs':[{'log':r[0],'command':f'git -C /repo apply seeded/{cid}-{x}/patch.diff; ./check {cid} <tier>; git -C /repo checkout -- .','exit':r[1],'first_violations':r[2]} for r in runs],
+                   'how':f'tools/seedverify.sh {cid} {x} in the scratch worktree {SRCROOT}-{cid} (removed afterwards)'},
+      'check_runs':[{'log':r[0],'command':f'git -C /repo apply seeded/{cid}-{x}{ROUND}/patch.diff; ./check {cid} <tier>; git -C /repo checkout -- .','exit':r[1],'first_violations':r[2]} for r in runs],
       'caught_by_check': bool(caught),
     }
     json.dump(meta,open(f'{d}/meta.json','w'),indent=1)
-    index.append((cid,x,bool(caught),caught[0][2][:160] if caught else (runs[-1][2][:160] if runs else 'not run')))
-with open(f'{ROOT}/INDEX.md','w') as f:
-    f.write('# Seeded breaking changes\n\nEach directory holds patch.diff (applies to /repo HEAD), demo.rs (integration test that fails with the change and passes without it) and meta.json.\n\n| change | caught | first violation reported by ./check <Cxx> |\n|---|---|---|\n')
+    index.append((cid,x+ROUND,bool(caught),caught[0][2][:160] if caught else (runs[-1][2][:160] if runs else 'not run')))
+with open(f'{ROOT}/INDEX{ROUND}.md','w') as f:
+    f.write('# Seeded breaking changes'+(' (round '+ROUND+')' if ROUND else '')+'\n\nEach directory holds patch.diff (applies to /repo HEAD), demo.rs (integration test that fails with the change and passes without it) and meta.json.\n\n| change | caught | first violation reported by ./check <Cxx> |\n|---|---|---|\n')
     for cid,x,c,sig in index:
         f.write(f'| {cid}-{x} | {"yes" if c else "NO"} | {sig.replace("|","/")} |\n')
 print(len(index),'changes written;', sum(1 for i in index if i[2]),'caught')
